@@ -57,6 +57,7 @@ type Program struct {
 	specErrs  []string
 	globalsWritten map[*ssa.Global]bool
 	implCache map[string][]*ssa.Function
+	inits     map[string]*ssa.Function // package path -> synthetic package initialiser
 }
 
 func LoadProgram(repo string, specDirs []string) (*Program, error) {
@@ -105,8 +106,12 @@ func LoadProgram(repo string, specDirs []string) (*Program, error) {
 			P.tpkgByName[sp.Pkg.Name()] = sp.Pkg
 		}
 	}
+	P.inits = map[string]*ssa.Function{}
 	for fn := range ssautil.AllFunctions(prog) {
 		if fn.Synthetic != "" && fn.Syntax() == nil {
+			if fn.Name() == "init" && fn.Pkg != nil && fn.Parent() == nil && fn.Signature.Recv() == nil {
+				P.inits[fn.Pkg.Pkg.Path()] = fn
+			}
 			continue
 		}
 		root := fn
